@@ -444,31 +444,38 @@ def gen_block_family(rng, ntx, witness, big):
 
 
 def size_cases(rng):
-    """block size / weight boundaries (about 1 MB to hash per transaction id: thorough tier only).
-    A block without witness data of exactly 1,000,000 bytes weighs exactly 4,000,000; the
-    weight pair keeps the stripped size below the limit and reaches 4,000,000 / 4,000,001
-    with a few witness bytes (3*stripped + full is minimal in hashing cost that way)."""
+    """block size / weight boundaries: about 2,000 transactions of 500 bytes (the executable
+    sha256 of coq/Common/Hash.v is far too slow on one 1 MB transaction), minutes per case:
+    thorough tier only.  A block without witness data of exactly 1,000,000 bytes weighs
+    exactly 4,000,000; the weight pair keeps the stripped size at 999,900 and reaches
+    4,000,000 / 4,000,001 with a few witness bytes."""
     cases = []
     cb = mk_coinbase(rng, script_len=4, nout=1)
     cb[2][0][1] = b'\x51'
 
-    def fill(txs, k, size):
-        """grow output 0 of txs[k] until the stripped block has exactly `size` bytes"""
-        b = finalize(rng, txs)
-        cur = len(W.ser_block(b, False))
-        txs[k][2][0][1] = b'\x6a' + b'\x00' * (size - cur - 4 - 1)      # length prefix grows from 1 to 5 bytes
+    def fillers(last):
+        txs = [cb] + [[1, [[W.rb(rng, 32), 0, b'', 0xffffffff]], [[0, b'\x6a' + b'\x00' * 399]], [], 0] for _ in range(2150)]
+        return txs + [last]
+
+    def fit(txs, size):
+        """drop fillers / resize the script of txs[-2] until the stripped block has `size` bytes"""
+        while len(W.ser_block(finalize(rng, txs), False)) > size - 400:
+            del txs[-2]
+        cur = len(W.ser_block(finalize(rng, txs), False))
+        txs[-2][2][0][1] = b'\x6a' + b'\x00' * (399 + size - cur)      # 253 <= length < 65536: same prefix width
         b = finalize(rng, txs)
         assert len(W.ser_block(b, False)) == size, len(W.ser_block(b, False))
         return b
 
     for size in (1000000, 1000001):
-        filler = [1, [[b'\x22' * 32, 0, b'', 0]], [[0, b'']], [], 0]
-        add(cases, 1602, [3, fill([cb, filler], 1, size), 1, 1, T0], 'blk-size-%d' % size)
+        txs = fillers([2, [[W.rb(rng, 32), 1, b'', 0]], [[1, b'\x51']], [], 0])
+        add(cases, 1602, [3, fit(txs, size), 1, 1, T0], 'blk-size-%d' % size)
     for weight in (4000000, 4000001):
-        wtx = [1, [[b'\x33' * 32, 0, b'', 0]], [[0, b'']], [[b'\x00' * 10]], 0]
-        fill([cb, wtx], 1, 999900)
+        wtx = [2, [[W.rb(rng, 32), 1, b'', 0]], [[1, b'\x51']], [[b'\x00' * 10]], 0]
+        txs = fillers(wtx)
+        fit(txs, 999900)
         for _ in range(4):                                     # the item's length prefix may grow: iterate
-            b = finalize(rng, [cb, wtx])
+            b = finalize(rng, txs)
             got = 3 * len(W.ser_block(b, False)) + len(W.ser_block(b, True))
             if got == weight:
                 break
